@@ -21,12 +21,38 @@ func Verif_C16_StrictDecoder() {
 		v.Assert(err == nil, "parse-succeeds-on-a-decodable-document")
 		known, _ := v.Load("yaml.known").(bool)
 		v.Assert(known, "decoder-rejects-unknown-keys")
+		// no type of the configuration decodes its own subtree with a fresh
+		// (non-strict) decoder: every UnmarshalYAML reachable from Config is run
+		loose, _ := v.Load("yaml.node.decoded.nonstrictly").(bool)
+		v.Assert(!loose, "no-subtree-is-decoded-non-strictly")
 		return
 	}
 	_, err := ParseWithEnvMapping(strings.NewReader("name: x\narch: amd64\nversion: 1.0.0\n"), nil)
 	v.Assert(err == nil, "parse-succeeds-on-a-decodable-document")
 	_, err = ParseWithEnvMapping(strings.NewReader("name: x\narch: amd64\nversion: 1.0.0\nno_such_key: 1\n"), nil)
 	v.Assert(err != nil, "decoder-rejects-unknown-keys")
+	// natively: a misspelt key at every nesting level that has its own Go type
+	head := "name: x\narch: amd64\nversion: 1.0.0\n"
+	nested := []string{
+		"scripts:\n  preinstal: a\n",
+		"contents:\n- src: a\n  dst: /b\n  tpye: config\n",
+		"contents:\n- src: a\n  dst: /b\n  file_info:\n    ownr: x\n",
+		"overrides:\n  deb:\n    contents:\n    - src: a\n      dst: /b\n      expnad: true\n",
+		"overrides:\n  rpm:\n    depnds: [a]\n",
+		"deb:\n  signature:\n    key_fil: k\n",
+		"rpm:\n  scripts:\n    pretrans_: a\n",
+		"apk:\n  signature:\n    keyname: k\n",
+		"archlinux:\n  scripts:\n    preupgrad: a\n",
+		"ipk:\n  alternatives:\n  - priority: 1\n    targt: /a\n",
+		"deb:\n  triggers:\n    interst: [a]\n",
+	}
+	allRejected := true
+	for _, doc := range nested {
+		if _, e := ParseWithEnvMapping(strings.NewReader(head+doc), nil); e == nil {
+			allRejected = false
+		}
+	}
+	v.Assert(allRejected, "no-subtree-is-decoded-non-strictly")
 }
 
 // verifPlain: n arbitrary bytes without '$'.
